@@ -1,4 +1,5 @@
 mod c13;
+mod c14;
 mod c15;
 mod c20;
 mod coqfmt;
@@ -29,10 +30,11 @@ fn main() {
         }
     }
     // panics are expected outcomes of cases; keep stderr quiet
-    std::panic::set_hook(Box::new(|_| {}));
+    if std::env::var("VERIF_SHOW_PANICS").is_err() { std::panic::set_hook(Box::new(|_| {})); }
     let mut ctx = ctx::Ctx::new(&prop, thorough, seed, out, only);
     match prop.as_str() {
         "C13" => c13::run(&mut ctx),
+        "C14" => c14::run(&mut ctx),
         "C15" => c15::run(&mut ctx),
         "C20" => c20::run(&mut ctx),
         _ => {
